@@ -249,13 +249,31 @@ func (dec *Decoder) DiscardUntilByte(untilCh byte) {
 	}
 }
 
-func (dec *Decoder) DiscardLine() {
+// DiscardLine discards the rest of the current line.
+//
+// It returns true if the discarded text ends with the header of a
+// non-synchronizing literal: the bytes which follow the line are then literal
+// data the peer has already sent, not the beginning of a new command.
+func (dec *Decoder) DiscardLine() (nonSyncLiteral bool) {
 	if dec.crlf {
-		return
+		return false
 	}
 	var text string
 	dec.Text(&text)
 	dec.CRLF()
+	return endsWithNonSyncLiteral(text)
+}
+
+func endsWithNonSyncLiteral(text string) bool {
+	if !strings.HasSuffix(text, "+}") {
+		return false
+	}
+	end := len(text) - 2
+	start := end
+	for start > 0 && text[start-1] >= '0' && text[start-1] <= '9' {
+		start--
+	}
+	return start < end && start > 0 && text[start-1] == '{'
 }
 
 func (dec *Decoder) DiscardValue() bool {
